@@ -155,9 +155,13 @@ func NewSpanCase(r *rand.Rand, o SpanOpts) SpanCase {
 	groups := make([]grp, o.Groups)
 	for g := range groups {
 		groups[g].service = fmt.Sprintf("svc-%s-%d", o.ID, g)
+		noRes := !o.Zipkin && r.Intn(12) == 0 // OTLP group without any resource information
 		n := r.Intn(3)
-		if o.Zipkin {
+		if o.Zipkin || noRes {
 			n = 0
+		}
+		if noRes {
+			groups[g].service = ""
 		}
 		for i := 0; i < n; i++ {
 			groups[g].res = append(groups[g].res, randAttr(r, fmt.Sprintf("res.attr%d", i), o, 0))
@@ -260,7 +264,11 @@ func RenderOTLP(r *rand.Rand, c SpanCase) Request {
 			sc := scopes[r.Intn(nsc)]
 			sc.Spans = append(sc.Spans, sp)
 		}
-		td.ResourceSpans = append(td.ResourceSpans, &otlpTrace.ResourceSpans{Resource: res, ScopeSpans: scopes})
+		rs := &otlpTrace.ResourceSpans{Resource: res, ScopeSpans: scopes}
+		if len(res.Attributes) == 0 {
+			rs.Resource = nil // the resource is optional in OTLP
+		}
+		td.ResourceSpans = append(td.ResourceSpans, rs)
 	}
 	b, err := proto.Marshal(td)
 	if err != nil {
